@@ -200,8 +200,8 @@ Section Dictify.
 
   Lemma elide_nil : forall d, elide [] d = d.
   Proof.
-    intro d. unfold elide. induction d as [|[k v] r IH]; [reflexivity|]. cbn [filter fst snd].
-    destruct k; cbn [mem_bytes existsb andb negb]; rewrite IH; reflexivity.
+    intro d. unfold elide. induction d as [|[k v] r IH]; [reflexivity|].
+    cbn [filter]. rewrite IH. destruct k; reflexivity.
   Qed.
 
   Lemma elide_plain : forall ns d, forallb (fun kv => plain (fst kv) && plain (snd kv)) d = true ->
@@ -316,8 +316,11 @@ Section Construct.
     construct_g s val post mk kw = construct_g s val post mk kw'.
   Proof.
     intros s val post mk kw kw' H. unfold construct_g.
-    destruct (bind_args s kw) as [a|e]; destruct (bind_args s kw') as [a'|e']; simpl in *;
-      try rewrite H; try reflexivity; try (rewrite <- H; reflexivity).
+    destruct (bind_args s kw) as [a|e]; destruct (bind_args s kw') as [a'|e']; simpl in *.
+    - rewrite H. reflexivity.
+    - rewrite H. reflexivity.
+    - rewrite <- H. reflexivity.
+    - injection H as ->. reflexivity.
   Qed.
 
   Lemma bind_args_fields : forall s kw fs, keys_known s kw = true ->
@@ -361,6 +364,18 @@ Proof.
   - destruct fs as [|[n v] fs]; [discriminate|]. simpl in Hn. injection Hn as Hn1 Hn2. constructor.
     + unfold bind_field. rewrite <- Hn1. rewrite (Hg n v) by (left; reflexivity). reflexivity.
     + apply IH; [exact Hn2|]. intros n' v' Hin. apply Hg. right. exact Hin.
+Qed.
+
+Lemma Forall2_bind_gen : forall (D : dict) (g : pyval -> pyval) (s : list field) (fs : fields),
+  map fst fs = map fname s ->
+  (forall f nv, In f s -> In nv fs -> fst nv = fname f -> bind_field D f = Ok (fst nv, g (snd nv))) ->
+  Forall2 (fun f nv' => bind_field D f = Ok nv') s (map (fun nv => (fst nv, g (snd nv))) fs).
+Proof.
+  intros D g s. induction s as [|f s IH]; intros fs Hn G.
+  - destruct fs; [constructor | discriminate].
+  - destruct fs as [|nv fs]; [discriminate|]. simpl in Hn. injection Hn as Hn1 Hn2. simpl. constructor.
+    + apply G; [left; reflexivity | left; reflexivity | exact Hn1].
+    + apply IH; [exact Hn2|]. intros f0 nv0 Hf0 Hnv0 E. apply G; [right; exact Hf0 | right; exact Hnv0 | exact E].
 Qed.
 
 Lemma bind_args_as_kwargs : forall s fs, map fst fs = map fname s -> bytes_nodup (map fname s) = true ->
@@ -409,21 +424,7 @@ Section Generic.
           { apply mem_bytes_In. rewrite <- Efn. apply in_map. exact Hf's. } congruence.
         - apply IH; assumption. }
       rewrite Forall_forall in Hel. rewrite (Hel f Hf Hel'). reflexivity. }
-    clear Hnd' Hel Hnd. revert fs Hn G. induction s as [|f s IH]; intros fs Hn G.
-    - destruct fs; [constructor | discriminate].
-    - destruct fs as [|nv fs]; [discriminate|]. simpl in Hn. injection Hn as Hn1 Hn2. simpl.
-      constructor.
-      + apply G; [left; reflexivity | left; reflexivity | exact Hn1].
-      + (* the tail is bound in the same, whole dictionary *)
-        assert (T : forall f0 nv0, In f0 s -> In nv0 fs -> fst nv0 = fname f0 ->
-                    bind_field (to_dict_g (f :: s) (nv :: fs)) f0 = Ok (fst nv0, dictify (snd nv0))).
-        { intros f0 nv0 Hf0 Hnv0 E. apply G; [right; exact Hf0 | right; exact Hnv0 | exact E]. }
-        clear G IH. revert fs Hn2 T. generalize (to_dict_g (f :: s) (nv :: fs)) as D.
-        intro D. induction s as [|g s IHs]; intros fs Hn2 T.
-        * destruct fs; [constructor | discriminate].
-        * destruct fs as [|nv1 fs]; [discriminate|]. simpl in Hn2. injection Hn2 as Ha Hb. simpl. constructor.
-          -- apply T; [left; reflexivity | left; reflexivity | exact Ha].
-          -- apply IHs; [exact Hb|]. intros f0 nv0 Hf0 Hnv0 E. apply T; [right; exact Hf0 | right; exact Hnv0 | exact E].
+    apply Forall2_bind_gen; [exact Hn | exact G].
   Qed.
 
   (* C12_generic_roundtrip.  For every well-formed schema s, every validator
